@@ -268,10 +268,13 @@ an object of its own under each of its two keys (F5 repaired) and only after `re
 (F16 repaired); loadSession looks the session up by destination and re-verifies its recorded
 certificates (F13 repaired) and hands the handshake a copy of its own (F40 repaired: an eviction
 during the handshake cannot wipe the session in use); the deferred cleanup removes a loaded session on any error under
-both keys; the server decides on resumption by the guards listed (identifier known, client
-authentication policy, version, suite offered by the client, suite enabled by the server),
-stores a session once — after the client's Finished is verified and before its own is sent —
-and draws new 32-byte identifiers from `Config.rand`. -/
+both keys; the server stores a session once — after the client's Finished is verified and before its own is sent —
+and draws new 32-byte identifiers from `Config.rand`.
+NOT a text fact any more: the guards by which the server decides on resumption (identifier known, client
+authentication policy, version, suite offered by the client, suite enabled by the server).
+`checkForResumption` of both stacks is TRANSLATED to Lean on every run and Props/C10SrcSel.lean proves, about the
+translated text, when it answers true (`C10_src_sel_resume_iff_*`) and that its decision is the model's
+(`C10_src_sel_is_model_*`); the list `resServerGuards` is informational. -/
 theorem C10_facts :
     Oracle.C10.tlcpParams.perKeyObject = true ∧ Oracle.C10.dtlcpParams.perKeyObject = true ∧
     Oracle.C10.tlcpParams.storeAfterFinished = true ∧ Oracle.C10.dtlcpParams.storeAfterFinished = true ∧
@@ -290,10 +293,6 @@ theorem C10_facts :
     Facts.tlcp.resCleanupPutsNil = true ∧ Facts.dtlcp.resCleanupPutsNil = true ∧
     Facts.tlcp.resLoadKey = "dest" ∧ Facts.dtlcp.resLoadKey = "dest" ∧
     Facts.tlcp.resLoadClones = true ∧ Facts.dtlcp.resLoadClones = true ∧
-    Facts.tlcp.resServerGuards.drop 1 = ["len(hs.clientHello.sessionId) == 0", "!ok", "needClientCerts && !sessionHasClientCerts",
-      "sessionHasClientCerts && c.config.ClientAuth == NoClientCert", "c.vers != hs.sessionState.vers", "!cipherSuiteOk", "hs.suite == nil"] ∧
-    Facts.dtlcp.resServerGuards.drop 1 = Facts.tlcp.resServerGuards.drop 1 ∧
-    Facts.tlcp.resServerGuardsEndTrue = true ∧ Facts.dtlcp.resServerGuardsEndTrue = true ∧
     Facts.tlcp.resClientResumedExpr = "hs.session != nil && hs.hello.sessionId != nil && len(hs.serverHello.sessionId) > 0 && bytes.Equal(hs.serverHello.sessionId, hs.hello.sessionId)" ∧
     Facts.dtlcp.resClientResumedExpr = Facts.tlcp.resClientResumedExpr ∧
     Facts.tlcp.resClientChecks = ["hs.session.vers != c.vers", "hs.session.cipherSuite != hs.suite.id", "!(len(hs.session.masterSecret) > 0)"] ∧
